@@ -244,6 +244,18 @@ def run(ctx):
                construct="arg-flow", callee="msg", where=b.where(bb),
                sample={"rule": "entry-points", "fn": b.path, "kind": term_str(kt), "msg": term_str(mt)})
     ctx.floor("C13.entry-points", "error entry points", found, 4)
+    # an error reported after earlier resultsets must still belong to this response: the pending terminator that precedes
+    # the ERR packet has to announce more results, else a conformant client stops reading before the ERR (C03.finalize-first)
+    qe = prog.find(r"^resultset::QueryResultWriter::<'a, W>::error$")
+    if len(qe) == 1:
+        b = qe[0]
+        fcalls = [(bb, t) for bb, t in b.calls() if cname(t["func"]).endswith("QueryResultWriter::<'a, W>::finalize")]
+        ok = len(fcalls) == 1 and b.arg_origin(fcalls[0][0], 1) == ("const", ("int", 1, "bool"))
+        werr = [bb for bb, t in b.calls() if cname(t["func"]) == "writers::write_err"]
+        ok = ok and werr and b.dominates(fcalls[0][0], werr[0])
+        ctx.ob("C13.entry-points", ok, "QueryResultWriter::error must flush the pending terminator with more_results=true before the ERR packet, "
+               "otherwise the client never reads the error as part of this response", fn=b.path, construct="terminator-before-err",
+               where=b.where(fcalls[0][0]) if fcalls else None)
     # library caller: the authentication failure ERR uses the constant kind ER_ACCESS_DENIED_ERROR
     callers = prog.callers_of(r"^writers::write_err$")
     ctx.floor("C13.entry-points", "callers of the ERR writer", len([1 for b, _, _ in callers if "::tests::" not in b.path]), 4)
